@@ -35,12 +35,4 @@ theorem cmps_swap : ∀ xs ys : List PD, cmps xs ys = (cmps ys xs).swap
     cases cmp y x <;> simp
 end
 
-/-- transitivity in the "compose" form: if a≤b-ish results agree -/
-def Trans3 (o1 o2 o3 : Ordering) : Prop :=
-  (o1 = .lt → o2 ≠ .gt → o3 = .lt) ∧ (o1 = .eq → o3 = o2) ∧ (o2 = .eq → o3 = o1) ∧ (o1 ≠ .gt → o2 = .lt → o3 = .lt)
-
-theorem int_trans (a b c : Int) : Trans3 (compare a b) (compare b c) (compare a c) := by
-  unfold Trans3
-  simp only [Int.compare_eq_lt, Int.compare_eq_eq, ne_eq, Int.compare_eq_gt] <;> sorry
-
 end Spike.Ord
